@@ -511,75 +511,77 @@ class CodeBuilder:
                 alias = self.__get_field_alias(fname, ftype, metadata, config)
 
                 filtered_fields.append((fname, alias, ftype))
-            if filtered_fields:
-                with self.indent("try:"):
-                    if config.forbid_extra_keys:
-                        allowed_keys = {
-                            f[0] if f[1] is None else f[1]
-                            for f in filtered_fields
-                        }
+            # a class without init fields checks its argument as well
+            with self.indent("try:"):
+                if not filtered_fields and not config.forbid_extra_keys:
+                    self.add_line("d.get")
+                if config.forbid_extra_keys:
+                    allowed_keys = {
+                        f[0] if f[1] is None else f[1] for f in filtered_fields
+                    }
 
-                        # If a discriminator with a field is set via config,
-                        # we should allow this field to be present in the
-                        # input. This will not work for annotated
-                        # discriminators though...
-                        discr = self.get_discriminator(look_in_parents=True)
-                        if discr and discr.field:
-                            allowed_keys.add(discr.field)
+                    # If a discriminator with a field is set via config,
+                    # we should allow this field to be present in the
+                    # input. This will not work for annotated
+                    # discriminators though...
+                    discr = self.get_discriminator(look_in_parents=True)
+                    if discr and discr.field:
+                        allowed_keys.add(discr.field)
 
-                        if config.allow_deserialization_not_by_alias:
-                            allowed_keys |= {f[0] for f in filtered_fields}
+                    if config.allow_deserialization_not_by_alias:
+                        allowed_keys |= {f[0] for f in filtered_fields}
 
-                        allowed_keys_str = ", ".join(map(repr, allowed_keys))
+                    allowed_keys_str = ", ".join(map(repr, allowed_keys))
 
-                        self.add_line("d_keys = set(d.keys())")
+                    self.add_line("d_keys = set(d.keys())")
+                    if allowed_keys:
                         self.add_line(
-                            f"forbidden_keys = d_keys - {{{allowed_keys_str}}}"
+                            "forbidden_keys = d_keys - "
+                            f"{{{allowed_keys_str}}}"
                         )
-                        with self.indent("if forbidden_keys:"):
-                            self.add_line(
-                                "raise ExtraKeysError(forbidden_keys,cls) "
-                                "from None"
-                            )
+                    else:
+                        self.add_line("forbidden_keys = d_keys")
+                    with self.indent("if forbidden_keys:"):
+                        self.add_line(
+                            "raise ExtraKeysError(forbidden_keys,cls) "
+                            "from None"
+                        )
 
-                    for fname, alias, ftype in filtered_fields:
-                        self.add_type_modules(ftype)
-                        metadata = self.metadatas.get(fname, {})
-                        field_block = FieldUnpackerCodeBlockBuilder(
-                            self, CodeLines()
-                        ).build(
-                            fname=fname,
-                            ftype=ftype,
-                            metadata=metadata,
-                            alias=alias,
-                        )
-                        if field_block.in_kwargs:
-                            add_kwargs = True
-                        field_blocks.append(field_block)
-                    if add_kwargs:
-                        self.add_line("kwargs = {}")
-                    in_kwargs = False
-                    for field_block in field_blocks:
-                        self.lines.extend(field_block.lines)
-                        if field_block.in_kwargs:
-                            in_kwargs = True
+                for fname, alias, ftype in filtered_fields:
+                    self.add_type_modules(ftype)
+                    metadata = self.metadatas.get(fname, {})
+                    field_block = FieldUnpackerCodeBlockBuilder(
+                        self, CodeLines()
+                    ).build(
+                        fname=fname,
+                        ftype=ftype,
+                        metadata=metadata,
+                        alias=alias,
+                    )
+                    if field_block.in_kwargs:
+                        add_kwargs = True
+                    field_blocks.append(field_block)
+                if add_kwargs:
+                    self.add_line("kwargs = {}")
+                in_kwargs = False
+                for field_block in field_blocks:
+                    self.lines.extend(field_block.lines)
+                    if field_block.in_kwargs:
+                        in_kwargs = True
+                    else:
+                        if field_block.fname in kw_only_fields or in_kwargs:
+                            kw_args.append(field_block.fname)
                         else:
-                            if (
-                                field_block.fname in kw_only_fields
-                                or in_kwargs
-                            ):
-                                kw_args.append(field_block.fname)
-                            else:
-                                pos_args.append(field_block.fname)
-                with self.indent("except AttributeError:"):
-                    with self.indent("if not isinstance(d, dict):"):
-                        self.add_line(
-                            "raise ValueError('Argument for "
-                            f"{type_name(self.cls)}.{method_name} method "
-                            "should be a dict instance') from None"
-                        )
-                    with self.indent("else:"):
-                        self.add_line("raise")
+                            pos_args.append(field_block.fname)
+            with self.indent("except AttributeError:"):
+                with self.indent("if not isinstance(d, dict):"):
+                    self.add_line(
+                        "raise ValueError('Argument for "
+                        f"{type_name(self.cls)}.{method_name} method "
+                        "should be a dict instance') from None"
+                    )
+                with self.indent("else:"):
+                    self.add_line("raise")
 
             args = [f"__{f}" for f in pos_args]
             for kw_arg in kw_args:
